@@ -22,8 +22,11 @@ import copy
 
 from .model import FuncInfo, Program
 
-MAX_DEPTH = 4
+MAX_DEPTH = 5
 MAX_STMTS = 60
+# public helpers that rules refer to by name (or whose body is judged on its own): never inlined
+NEVER_INLINE = {"format_quotes", "format_alias_sql", "builder", "ignore_copy", "copy", "deepcopy", "validate", "resolve_is_aggregate",
+                "cast", "isinstance", "getattr", "setattr", "hasattr", "len", "set", "list", "tuple", "dict", "sorted", "any", "all", "map", "filter", "zip"}
 
 
 def _body_wo_doc(fn: ast.FunctionDef) -> list:
@@ -137,26 +140,34 @@ class Inliner:
         self.p = program
         self.cache: dict = {}
         self.counter = 0
+        self.recv = None     # receiver class for which self.<hook>() / super().<hook>() are resolved (default: the defining class)
 
     # ------------------------------------------------------------------ callee resolution
     def _resolve(self, call: ast.Call, f: FuncInfo, local_defs: dict, selfname: str | None):
         fn = call.func
+        recv = self.recv if self.recv is not None else f.cls
         if isinstance(fn, ast.Name):
             if fn.id in local_defs:
                 return ("local", local_defs[fn.id], None)
-            if fn.id.startswith("_") and not fn.id.startswith("__"):
+            if fn.id not in NEVER_INLINE and not fn.id.startswith("__"):
                 r = self.p.resolve_global(f.module, fn.id)
-                if r and r[0] == "func":
+                if r and r[0] == "func" and not r[1].decorators:
                     return ("func", r[1].node, r[1])
             return None
-        if isinstance(fn, ast.Attribute) and fn.attr.startswith("_") and not fn.attr.startswith("__") and f.cls is not None:
+        if isinstance(fn, ast.Attribute) and fn.attr.startswith("_") and not fn.attr.startswith("__") and f.cls is not None and recv is not None:
             base = fn.value
+            # super()._hook(...): the next definition after the class that defines the calling function
+            if isinstance(base, ast.Call) and isinstance(base.func, ast.Name) and base.func.id == "super" and not base.args:
+                g = recv.resolve_after(f.cls, fn.attr) if (recv.is_subclass_of(f.cls) or recv is f.cls) else None
+                if g is None or g.is_builder or g.is_property or g.is_overload or g.is_static:
+                    return None
+                return ("super", g.node, g)
             is_self = isinstance(base, ast.Name) and base.id in (selfname, "cls")
             is_cls = isinstance(base, ast.Name) and self.p.find_cls(base.id) is not None and (
                 f.cls.is_subclass_of(self.p.find_cls(base.id)) or f.cls is self.p.find_cls(base.id))
             if not (is_self or is_cls):
                 return None
-            g = f.cls.resolve(fn.attr)
+            g = recv.resolve(fn.attr) if is_self else self.p.find_cls(base.id).resolve(fn.attr)
             if g is None or g.is_builder or g.is_property or g.is_overload:
                 return None
             return ("method", g.node, g)
@@ -188,7 +199,10 @@ class Inliner:
         args = list(call.args)
         if any(isinstance(x, ast.Starred) for x in args) or any(k.arg is None for k in call.keywords):
             return None
-        if kind == "method" and info is not None and not info.is_static:
+        if kind == "super":
+            mapping[params[0]] = ast.Name(id=selfname or "self", ctx=ast.Load())
+            params_rest = params[1:]
+        elif kind == "method" and info is not None and not info.is_static:
             recv = call.func.value if isinstance(call.func, ast.Attribute) else None
             if info.is_classmethod:
                 mapping[params[0]] = ast.Call(func=ast.Name(id="type", ctx=ast.Load()), args=[ast.Name(id=selfname or "self", ctx=ast.Load())], keywords=[]) \
@@ -230,20 +244,26 @@ class Inliner:
         return prelude, final_map, rename
 
     # ------------------------------------------------------------------ the transformation
-    def inlined(self, f: FuncInfo) -> FuncInfo:
-        if f in self.cache:
-            return self.cache[f]
+    def inlined(self, f: FuncInfo, recv=None, exprs: bool = True) -> FuncInfo:
+        key = (f, recv, exprs)
+        if key in self.cache:
+            return self.cache[key]
+        self.exprs = exprs
         node = copy.deepcopy(f.node)
         selfname = f.params[0] if (f.cls is not None and f.params and not f.is_static) else None
+        prev = self.recv
+        self.recv = recv
         try:
-            node.body = self._block(node.body, f, {}, selfname, (f.node.name,), 0)
+            node.body = self._block(node.body, f, {}, selfname, (id(f.node),), 0)
             ast.fix_missing_locations(node)
         except RecursionError:
             node = f.node
+        finally:
+            self.recv = prev
         g = copy.copy(f)
         g.node = node
         g.inlined_from = f
-        self.cache[f] = g
+        self.cache[key] = g
         return g
 
     def _block(self, stmts: list, f, local_defs: dict, selfname, stack: tuple, depth: int) -> list:
@@ -264,7 +284,7 @@ class Inliner:
         if r is None:
             return None
         kind, cnode, info = r
-        if cnode.name in stack or not self._eligible(cnode):
+        if id(cnode) in stack or not self._eligible(cnode):
             return None
         b = self._bind(kind, cnode, info, call, selfname)
         if b is None:
@@ -276,7 +296,7 @@ class Inliner:
         body = _tailify(body, on_ret, on_ret(None) if getattr(on_ret, "needs_value", False) else [])
         callee_f = info if info is not None else f
         callee_self = selfname
-        inner = self._block(prelude + body, callee_f if kind != "local" else f, local_defs if kind == "local" else {}, callee_self, stack + (cnode.name,), depth + 1)
+        inner = self._block(prelude + body, callee_f if kind != "local" else f, local_defs if kind == "local" else {}, callee_self, stack + (id(cnode),), depth + 1)
         return inner
 
     def _stmt(self, s, f, local_defs, selfname, stack, depth) -> list:
@@ -315,13 +335,15 @@ class Inliner:
                 h.body = self._block(h.body, f, local_defs, selfname, stack, depth)
         if isinstance(s, ast.FunctionDef):
             # a nested definition (decorator wrapper, closure): its own body is read through helpers as well
-            s.body = self._block(s.body, f, local_defs, selfname, stack + (s.name,), depth)
+            s.body = self._block(s.body, f, local_defs, selfname, stack + (id(s),), depth)
             return [s]
         # expression-level calls to single-return helpers
         return [self._exprs(s, f, local_defs, selfname, stack, depth)]
 
     def _exprs(self, s, f, local_defs, selfname, stack, depth):
         inl = self
+        if not getattr(self, "exprs", True):
+            return s
 
         class T(ast.NodeTransformer):
             def visit_FunctionDef(self, n):
@@ -335,7 +357,7 @@ class Inliner:
                 if r is None:
                     return n
                 kind, cnode, info = r
-                if cnode.name in stack or not inl._eligible(cnode):
+                if id(cnode) in stack or not inl._eligible(cnode):
                     return n
                 body = _body_wo_doc(cnode)
                 value = _as_expr(body)
@@ -366,9 +388,11 @@ class Inliner:
         return T().visit(s)
 
 
-def inlined(program: Program, f: FuncInfo) -> FuncInfo:
+def inlined(program: Program, f: FuncInfo, recv=None, exprs: bool = True) -> FuncInfo:
+    """recv: the concrete receiver class (hooks called through self / super() are resolved for it);
+    exprs=False: only statement-level calls are spliced, calls inside expressions are left to the consumer"""
     inl = program.__dict__.setdefault("_inliner", None)
     if inl is None:
         inl = Inliner(program)
         program.__dict__["_inliner"] = inl
-    return inl.inlined(f)
+    return inl.inlined(f, recv, exprs)
